@@ -47,6 +47,8 @@ def tier_budget_s(tier):
 # ----------------------------------------------------------------------------- query generation
 
 KINDS = ["linear", "linear", "nearest", "zero", "slinear", "quadratic", "cubic"]
+# the four Horvath-Kawazoe constants only (an adsorbate model the analysis has to refuse or to complete)
+HK4 = {"molecular_diameter": 0.34, "polarizability": 1.63e-3, "magnetic_susceptibility": 3.25e-8, "surface_density": 8.52e18}
 FILLS = [None, None, 0.0, [0.0, 5.0], "extrapolate"]
 
 
@@ -69,6 +71,8 @@ def _gen_query(rng, world, heavy_w):
     isos = world["isos"]
     fam = r.get("family", [])
     groups = ["access", "interp", "interp", "spread", "export", "adsorbate", "model_query" if "model" in r else "interp"]
+    if "model" in r:
+        groups += ["model_query"]
     if "n2_main" in r:
         groups += ["n2char", "n2char"]
     if fam:
@@ -136,7 +140,8 @@ def _gen_query(rng, world, heavy_w):
         q.update(q="adsorbate", iso=i, method=rng.choice(["saturation_pressure", "liquid_density", "gas_density", "molar_mass",
                                                           "surface_tension", "enthalpy_vaporisation", "gas_molar_density",
                                                           "liquid_molar_density", "p_critical", "t_critical", "to_dict",
-                                                          "material_to_dict"]),
+                                                          "material_to_dict", "formula", "get_prop", "backend_name", "find",
+                                                          "print_info", "material_get_prop"]),
                  T=rng.choice([None, None, 77.355, 120.0, 273.15, 298.15, 500.0]), calculate=rng.choice([True, True, False]),
                  unit=rng.choice([None, None, "bar"]))
     elif g == "model_query":
@@ -183,9 +188,9 @@ def _gen_query(rng, world, heavy_w):
             q["kw"] = rng.choice([{}, {"psd_model": "HK-CY"}, {"psd_model": "RY"}, {"pore_geometry": "cylinder"}, {"material_model": "AlSiOxideIon"},
                                   {"p_limits": [0, 0.2]}, {"adsorbate_model": ar_like}, {"adsorbate_model": ar_like, "psd_model": "RY"},
                                   {"material_model": solid}, {"material_model": "AlPhOxideIon", "pore_geometry": "sphere"},
-                                  {"psd_model": "RY-CY"}, {"branch": "des"}, {"psd_model": "nope"}])
+                                  {"psd_model": "RY-CY"}, {"branch": "des"}, {"psd_model": "nope"}, {"adsorbate_model": HK4}, {"adsorbate_model": HK4}])
         elif what == "psd_dft":
-            q["kw"] = rng.choice([{}, {"bspline_order": 3}, {"branch": "des"},
+            q["kw"] = rng.choice([{}, {"bspline_order": 3}, {"branch": "des"}, {"bspline_order": 0}, {"bspline_order": 0},
                                   {"kernel_units": {"loading_basis": "volume_gas", "loading_unit": "cm3"}},
                                   {"kernel_units": {"loading_unit": "mmoles"}}, {"kernel_units": {"pressure_mode": "relative%"}},
                                   {"p_limits": [0.0, 0.5]}, {"kernel": "nope"}, {"kernel": "@GOODKERNEL"}, {"kernel": "@BADKERNEL"},
@@ -267,6 +272,12 @@ def gen_churn(rng, world, heavy_w):
     """Object churn: the query runs on a series of short-lived look-alikes (same labels and metadata, other data) standing
     in for one of its isotherms; they die, the isotherm is built anew from its specification - by a program that loads
     one file after another - and the query follows.  Returns (churn step, the query) or None."""
+    r = world["roles"]
+    if "n2_main" in r and "n2_ref" in r and rng.random() < 0.3:
+        # the comparative analysis: a reference isotherm that comes and goes while the sample stays
+        q = {"g": "n2char", "q": "alpha_s", "iso": r["n2_main"], "ref": r["n2_ref"],
+             "kw": rng.choice([{}, {}, {"reference_area": "langmuir"}, {"reducing_pressure": 0.3}])}
+        return {"g": "churn", "q": "churn", "slot": r["n2_ref"] if rng.random() < 0.7 else r["n2_main"], "n": 16, "query": q}, q
     for attempt in range(16):
         q = gen_query(rng, world, heavy_w)
         if q["g"] in ("mutator", "adsorbate"):
@@ -327,7 +338,12 @@ def gen_related(rng, world, prev):
                    "surface_density": 8.52e18, "liquid_density": 1.4, "adsorbate_molar_mass": 39.948}
         solid = {"molecular_diameter": 0.31, "polarizability": 1.9e-3, "magnetic_susceptibility": 9.5e-8, "surface_density": 2.4e19}
         q["kw"] = rng.choice([{}, {"adsorbate_model": ar_like}, {"material_model": solid}, {"adsorbate_model": ar_like, "material_model": solid},
-                              {"psd_model": "RY"}, {"material_model": "AlSiOxideIon"}, dict(prev.get("kw") or {})])
+                              {"psd_model": "RY"}, {"material_model": "AlSiOxideIon"}, dict(prev.get("kw") or {}), dict(prev.get("kw") or {}),
+                              {"adsorbate_model": HK4}])
+        if rng.random() < 0.4:
+            # the same analysis, with the caller's same argument objects, on an isotherm of another gas / temperature
+            _, pts = _iso_roles(world)
+            q["iso"] = rng.choice(pts)
         return q
     if g == "export":
         # another export right after this one (text produced by one must not depend on the other having run)
@@ -344,8 +360,12 @@ def gen_related(rng, world, prev):
             q["x"] = rng.choice([[0.2, 2.0], [0.4, 3.9], [1.0, 3.0], [0.05, 4.4]])
         else:
             q["x"] = rng.choice([0.5, 1.5, 4.0, 4.4])
-        if rng.random() < 0.3:
-            q["q"] = rng.choice(["m_loading_at", "m_pressure_at", "m_spreading_pressure_at"])
+        if rng.random() < 0.55:
+            # the sibling function on the same model (they share whatever the model object keeps between calls)
+            q["q"] = rng.choice([f for f in ["m_loading_at", "m_pressure_at", "m_spreading_pressure_at", "m_spreading_pressure_at"]
+                                 if f != prev["q"]])
+            if q["q"] == "m_spreading_pressure_at":
+                q["kw"] = {}
         return q
     if g == "fit" and isinstance(prev.get("model"), str):
         # the same model fitted again without / with other bounds, or the Henry-constant analysis that fits a Henry model
@@ -472,6 +492,21 @@ def exec_query(objs, q, scratch):
             T = q["T"] if q["T"] is not None else iso.temperature
             if m == "to_dict":
                 val = ads.to_dict()
+            elif m == "formula":
+                val = ads.formula
+            elif m == "backend_name":
+                val = ads.backend_name
+            elif m == "get_prop":
+                val = [ads.get_prop("molar_mass"), ads.get_prop("backend_name")]
+            elif m == "find":
+                val = [pygaps.Adsorbate.find(ads.name).name, pygaps.Material.find(iso.material.name).name]
+            elif m == "print_info":
+                import contextlib
+                import io
+                with contextlib.redirect_stdout(io.StringIO()), contextlib.redirect_stderr(io.StringIO()):
+                    val = [ads.print_info(), iso.material.print_info()]
+            elif m == "material_get_prop":
+                val = [iso.material.get_prop("density"), iso.material.get_prop("molar_mass")]
             elif m == "material_to_dict":
                 val = [iso.material.to_dict(), iso.material.density, iso.material.molar_mass]
             elif m in ("molar_mass", "p_critical", "t_critical"):
@@ -520,9 +555,31 @@ def exec_query(objs, q, scratch):
             val = getattr(pgi, name)(isos, *copy.deepcopy(q["args"]), **_kw(q))
         else:
             raise ValueError("unknown query group " + q["g"])
-        return ["value", dg.canon(val)]
+        out = ["value", dg.canon(val)]
+        if q["g"] in ("n2char", "enth", "henry", "iast"):
+            _scribble_result(val)      # the caller does what it likes with the result it was handed (convert units in place...)
+        return out
     except Exception as e:  # noqa: BLE001 - every outcome is data
         return dg.canon_error(e)
+
+
+def _scribble_result(val, depth=0):
+    """In-place edits of a returned analysis result (writable float arrays scaled).  Only results of analyses are
+    edited: accessors such as data() / to_dict() hand out live parts of the isotherm by design of the pinned tree."""
+    import numpy
+    if depth > 4:
+        return
+    if isinstance(val, numpy.ndarray):
+        if val.flags.writeable and val.dtype.kind == "f":
+            val *= 10.0
+    elif isinstance(val, dict):
+        for k in list(val):
+            _scribble_result(val[k], depth + 1)       # arrays only: a result may hand out a live dict of the isotherm it was
+            # given (enthalpy_sorption_whittaker returns the model's parameter dict) - editing THAT is the caller changing
+            # its own isotherm, not a cache becoming visible
+    elif isinstance(val, (list, tuple)):
+        for x in val:
+            _scribble_result(x, depth + 1)
 
 
 KERNEL_FILES = {}   # "@GOODKERNEL"/"@BADKERNEL" -> path, filled by the session factory
@@ -550,8 +607,14 @@ def make_kernel_files(scratch):
     KERNEL_FILES["@BADKERNEL"] = bad
 
 
+ARG_POOL = {}    # a caller re-uses ITS OWN argument containers from call to call (per process; forks start with what exists)
+
+
 def _kw(q):
     kw = dict(q.get("kw") or {})
+    for k, v in list(kw.items()):
+        if isinstance(v, dict) or (isinstance(v, list) and k not in ("p_limits", "t_limits", "limits")):
+            kw[k] = ARG_POOL.setdefault(json.dumps([k, v], sort_keys=True), copy.deepcopy(v))
     if kw.get("kernel") in KERNEL_FILES:
         kw["kernel"] = KERNEL_FILES[kw["kernel"]]
     for k in ("p_limits", "t_limits", "limits"):
@@ -837,6 +900,7 @@ def execute(ctx, world, rng=None, steps=None, cfg=None):
             if q["g"] == "churn":
                 r = sut.call({"cmd": "churn", "slot": q["slot"], "n": q["n"], "query": q["query"]}, timeout=600)
                 count("churns")
+                count("churn:" + q["query"]["q"] + (":second-role" if q["slot"] != q["query"].get("iso") else ""))
                 if r["address_reused"]:
                     count("probe:new-isotherm-at-address-of-dead-one")
                 events.append(["churn", q["query"]["q"]])
@@ -924,7 +988,7 @@ def make_cfg(rng, tier):
     r = rng.random()
     if r < 0.05:
         cfg["burst"], cfg["burst_at"] = True, rng.randrange(0, max(1, cfg["n_steps"] - 1))
-    elif r < 0.13 and not cfg["mutators"]:
+    elif r < 0.25 and not cfg["mutators"]:
         # (a rebuilt isotherm equals the reference's only if nothing converted the original)
         cfg["churn"], cfg["churn_at"] = True, rng.randrange(0, max(1, cfg["n_steps"] - 1))
     return cfg
